@@ -739,6 +739,8 @@ class Interp:
                 return Adt(base, m.group(2))
         mz = re.fullmatch(r"ZeroSized: (.*)", t)
         if mz:
+            if mz.group(1).startswith("{closure@"):
+                return Tup((), name=mz.group(1))
             return Opaque("zst:" + mz.group(1))
         if t.startswith("{closure@") or t.startswith("ZeroSized"):
             return Tup((), name=t)
@@ -765,6 +767,12 @@ class Interp:
                     return self.const(None, None, val[6:])
             # const with a body (promoted / computed)
             f = pr.fns.get(name)
+            if f is None:
+                segs = P.split_path(name)
+                for k in range(1, len(segs) - 1):
+                    f = pr.fns.get("::".join(segs[k:]))
+                    if f is not None:
+                        break
             if f is None:
                 tail = name.split("::")[-1]
                 cf = [g for g in pr.order if g.kind == "const" and (g.name == tail or g.name.endswith("::" + tail))
@@ -805,12 +813,17 @@ class Interp:
             return self.cast(a, rv[2], rv[3])
         if k == "discr":
             v = self.read_loc(self.loc(ctx, fr, rv[1]))
-            return self.discriminant(v)
+            d = self.discriminant(v)
+            if dest is not None and not dest.projs:
+                ty = fr.fn.locals.get(dest.local)
+                if ty in INT_W and ty != d.ty:
+                    d = int_cast(Int(d.t, "isize"), ty)
+            return d
         if k == "len":
             v = self.read_loc(self.loc(ctx, fr, rv[1]))
             return Int(len(v.elems), "usize")
         if k == "aggregate":
-            return self.aggregate(ctx, fr, rv)
+            return self.aggregate(ctx, fr, rv, dest)
         if k == "repeat":
             v = self.operand(ctx, fr, rv[1])
             n = self.const_usize(fr, rv[2])
@@ -881,7 +894,7 @@ class Interp:
             return a
         raise Inconclusive("cast kind %s to %s" % (kind, ty))
 
-    def aggregate(self, ctx, fr, rv):
+    def aggregate(self, ctx, fr, rv, dest=None):
         _, kind, name, fields = rv
         vals = [self.operand(ctx, fr, f[1]) for f in fields]
         if kind == "tuple":
@@ -899,6 +912,11 @@ class Interp:
                 base = enum_base("::".join(parts[:-1]))
                 if base in self.enum_discr and parts[-1] in self.enum_discr[base]:
                     return Adt(base, parts[-1], vals)
+            # a variant of an enum of another crate prints as the bare variant name: use the destination's type
+            if len(parts) == 1 and dest is not None and not dest.projs:
+                base = enum_base(fr.fn.locals.get(dest.local, ""))
+                if base in self.enum_discr and parts[0] in self.enum_discr[base]:
+                    return Adt(base, parts[0], vals)
             # tuple struct / unit struct
             return Tup(vals, name=nm)
         raise Inconclusive("aggregate " + kind)
@@ -955,6 +973,9 @@ def binop(op, a, b):
             if a.fields or b.fields:
                 raise Inconclusive("enum compare with payload")
             return z3.BoolVal(r if op == "Eq" else not r)
+    if isinstance(a, Ref) and isinstance(b, Ref) and op in ("Eq", "Ne"):
+        same = a.cell is b.cell and a.path == b.path
+        return z3.BoolVal(same if op == "Eq" else not same)
     if not isinstance(a, Int) or not isinstance(b, Int):
         raise Inconclusive("binop %s on %r, %r" % (op, a, b))
     ty, w, s = a.ty, a.w, is_signed(a.ty)
